@@ -8,8 +8,9 @@
 (*   p   Prt(t), the tokens the printer revision `Fixes` emits             *)
 (*   f   Full(t), the fully parenthesised tokens                           *)
 (*   ok  Parse(Prt(t)) = t on the model                                    *)
-(* The enumeration leaves out the region of the open finding               *)
-(* (Syntax!InRegion).  The same for string literal bodies (StrInit).       *)
+(* While the finding "re-association" is open the enumeration leaves out   *)
+(* its region (Syntax!InRegion).  The same machinery enumerates string     *)
+(* literal bodies (StrInit).                                               *)
 (* Which repairs the printer under test contains is detected by the check  *)
 (* on the real code and handed over in the environment (EnvFixes).         *)
 (***************************************************************************)
@@ -41,7 +42,9 @@ TreesOf(s) ==
     [] s.kind = "un"    -> IF s.op \in UnOps THEN { Un(s.op, e) : e \in E1 } ELSE { Plug(s.op, e) : e \in E1 }
     [] s.kind = "binL"  -> { Bin(s.op, s.sub, r) : r \in U1 }
     [] s.kind = "binR"  -> { Bin(s.op, s.sub, r) : r \in E1 }
-TreeNext == seed /\ seed' = FALSE /\ t' \in { x \in TreesOf(t) : ~InRegion(x) }
+\* SYNTAX_SKIP_REGION=1 while the finding "re-association" is listed as open: stay out of its region
+SkipRegion == IOEnv.SYNTAX_SKIP_REGION = "1"
+TreeNext == seed /\ seed' = FALSE /\ t' \in { x \in TreesOf(t) : ~(SkipRegion /\ InRegion(x)) }
 
 StrInit == seed = TRUE /\ t = Seed("str", "", A)
 StrNext == seed /\ seed' = FALSE /\ t' \in ValidBodies(StrLen)
